@@ -597,7 +597,7 @@ pub fn check(case: &Case, st: &mut Stats, ex: &Excl) -> Result<(), String> {
 }
 
 pub fn run(ctx: &mut RunCtx) -> i32 {
-    let cases = ctx.cases(30_000, 800_000);
+    let cases = ctx.cases(60_000, 800_000);
     let n_inits = ctx.tier.pick(6, 16);
     let (excl, known_seen) = super::activate_exclusions(ctx, "C15");
     let mut cfg = cfg();
